@@ -2,6 +2,6 @@
    map to OCaml's; N, positive, Z, nat, ascii, string stay the Coq inductives. *)
 From Coq Require Extraction.
 From Coq Require Import ExtrOcamlBasic.
-From UV Require Import Base Codec Model Blocks Fault Bsdiff Downloads Json JsonText JsonState JsonSj CApi Signing.
+From UV Require Import Base Codec Model Blocks Fault Bsdiff Downloads Json JsonText JsonState JsonSj JsonWrite CApi Signing.
 Extraction "extraction/model.ml" Model.step Model.world0 Model.run Codec.apply_patch Codec.apply_patch_chunked Codec.simple_diff
-  Codec.wf_matches Codec.enc_u Codec.dec_u Codec.enc_s Codec.dec_s Base.hex_of_bytes Base.unhex Blocks.sched Blocks.mk_thread Blocks.thread_done Blocks.thread_step Blocks.world_actions Fault.callM Fault.initM Fault.run_plan Bsdiff.bsdiff Downloads.dl_step Downloads.dls0 Json.resp_of_json JsonText.resp_of_body JsonState.pj_of_file JsonSj.sj_of_file JsonSj.sj_of_file_n JsonSj.fstate_of_body_n JsonText.parse_json CApi.cstep Signing.check_signature Signing.b64_decode.
+  Codec.wf_matches Codec.enc_u Codec.dec_u Codec.enc_s Codec.dec_s Base.hex_of_bytes Base.unhex Blocks.sched Blocks.mk_thread Blocks.thread_done Blocks.thread_step Blocks.world_actions Fault.callM Fault.initM Fault.run_plan Bsdiff.bsdiff Downloads.dl_step Downloads.dls0 Json.resp_of_json JsonText.resp_of_body JsonState.pj_of_file JsonSj.sj_of_file JsonSj.sj_of_file_n JsonSj.fstate_of_body_n JsonState.pstate_of_body JsonWrite.pj_canonical JsonWrite.sj_canonical JsonWrite.w_pstate JsonWrite.w_fstate JsonText.parse_json CApi.cstep Signing.check_signature Signing.b64_decode.
